@@ -119,6 +119,8 @@ def call(w, fn, *a, **kw):
         info['fired'] = info.get('fired', 0) + A.fired
         if A.fired:
             w.stats['reorder_fired_in_op'] += 1
+            if w.cfg.get('natural'):
+                w.stats['reorder_fired_naturally_at_default_constants'] += 1
         A.end_op()
         w.touch()
 
